@@ -653,8 +653,23 @@ def _merge_acctinfo(args: ArgsType, markup: BytesIO) -> None:
         for clsnm, infos in itertools.groupby(acctinfos, key=sortKey)
     ]
 
+    # The accounts to request are the ones the server lists as ACTIVE.
+    # An account type it lists none of must not be filled in from the
+    # config files instead.
+    accttypes = (
+        "checking",
+        "savings",
+        "moneymrkt",
+        "creditline",
+        "creditcard",
+        "investment",
+    )
+    unlisted: ParsedAcctinfo = {
+        accttype: [] for accttype in accttypes if accttype in args
+    }
+
     # Insert extracted ACCTINFO after CLI commands, but before config files
-    args.maps.insert(1, ChainMap(*parsed_args))  # type: ignore
+    args.maps.insert(1, ChainMap(*parsed_args, unlisted))  # type: ignore
 
 
 def request_stmt(args: ArgsType) -> None:
